@@ -262,6 +262,15 @@ def run_history(h):
         ev.update(hidden_state())
         ev["defaults_changed_in"] = changed_defaults(d0)[:5]
         out["events"].append(ev)
+        if c.get("flush"):
+            # end of a session: the Dask results built earlier in it are computed now
+            for dev, dres, dins in deferred:
+                try:
+                    dev["digest"] = digest_result(dres, dins)
+                except Exception as ex:
+                    dev["raised"] = True
+                    dev["err"] = "%s: %s" % (type(ex).__name__, str(ex)[:300])
+            deferred = []
     for ev, res, ins in deferred:
         try:
             ev["digest"] = digest_result(res, ins)
